@@ -15,9 +15,8 @@
 (* TLC shows: permits and `inside` never leave 0..cap; the gauge `active`  *)
 (* (= Len()) never goes negative but, in the order of the code as it is,   *)
 (* can exceed cap for an instant (a waiter woken by Release increments it  *)
-(* before the releaser decrements).  That transient could not be observed  *)
-(* on the real code (stress sampler), so it is reported as a design        *)
-(* observation only.                                                       *)
+(* before the releaser decrements).  The stress sampler of the harness     *)
+(* observes that transient on the real code under load (Stress lines).     *)
 (***************************************************************************)
 EXTENDS Integers, FiniteSets, Sequences, TLC
 
